@@ -717,7 +717,15 @@ func (f *FuncCtx) havocHeap(st *State, h string) {
 		return
 	}
 	delete(st.pending, h)
+	var before string
+	if strings.HasPrefix(srt, "(Array Int ") && !strings.HasPrefix(h, "G_") {
+		before = f.heapTerm(st, h, srt)
+	}
 	st.heap[h] = f.fresh("hv_"+h, srt)
+	if before != "" {
+		// the slot of the nil reference is never written (every write through nil panics first), so no havoc changes it
+		st.assume("(= (select " + st.heap[h] + " 0) (select " + before + " 0))")
+	}
 }
 
 func (f *FuncCtx) loopEnv(st *State, extra map[string]Term, pos token.Pos) *CEnv {
